@@ -140,3 +140,56 @@ Theorem C09_rq_default_configuration_is_wellformed : forall (bx : @box R) (uw uh
   b_left bx < b_right bx -> b_bottom bx < b_top bx -> rq_wellformed (rq_default_cfg Rops) bx uw uh ud.
 Proof. exact default_wellformed. Qed.
 Print Assumptions C09_rq_default_configuration_is_wellformed.
+
+(* ---- the WHOLE piecewise-linear spline, forward direction: for ANY unnormalised pdf and any non-degenerate box every input of
+   [left, right] is accepted (the floor of the bin position is a valid bin), the image lies in [bottom, top], the log-abs-det
+   is the logarithm of a positive slope, the end points are pinned and the map is strictly increasing across bins ---- *)
+From NF Require Import Model.SplineLinear Proofs.SplineLinearWhole.
+Theorem C09_linear_whole_spline_is_increasing_onto : forall (bx : @box R) (u : list R),
+  u <> [] -> b_left bx < b_right bx -> b_bottom bx < b_top bx ->
+  (forall x, b_left bx <= x <= b_right bx ->
+     exists y l, linear_spline Rops false bx u x = Ok (y, l) /\ (b_bottom bx <= y <= b_top bx) /\ (exists d, 0 < d /\ l = ln d)) /\
+  (FL bx u (b_left bx) = b_bottom bx /\ FL bx u (b_right bx) = b_top bx) /\
+  (forall a b, b_left bx <= a -> a < b -> b <= b_right bx -> FL bx u a < FL bx u b).
+Proof. intros bx u H1 H2 H3. apply linear_whole; assumption. Qed.
+Print Assumptions C09_linear_whole_spline_is_increasing_onto.
+
+(* ---- the UNCONSTRAINED rational-quadratic spline (linear tails): the identity outside [-B, B], the whole-spline bijection
+   inside; the two meet at +-B, so the map is strictly increasing on the whole real line and takes every value ---- *)
+From NF Require Import Proofs.SplineRQTails.
+Theorem C09_rq_unconstrained_is_an_increasing_bijection_of_the_line :
+  forall (c : @rq_cfg R) (B : R) (uw uh ud : list R), 0 < B ->
+  rq_wellformed c {| b_left := - B; b_right := B; b_bottom := - B; b_top := B |} uw uh
+                (rq_tail_constant Rops (min_derivative c) :: ud ++ (rq_tail_constant Rops (min_derivative c) :: nil)) ->
+  (U c B uw uh ud (- B) = - B /\ U c B uw uh ud B = B) /\
+  (forall a b, a < b -> U c B uw uh ud a < U c B uw uh ud b) /\
+  (forall y, exists x, U c B uw uh ud x = y).
+Proof.
+  intros c B uw uh ud HB Hwf. split; [apply tails_meet_the_spline; assumption|].
+  split; [intros a b; apply unconstrained_increasing; assumption | intros y; apply unconstrained_onto; assumption].
+Qed.
+Print Assumptions C09_rq_unconstrained_is_an_increasing_bijection_of_the_line.
+
+(* ---- one bin of the CUBIC spline (generated coefficients and formulas): pinned end points, the stated end derivatives, and
+   strict monotonicity whenever both end derivatives lie strictly between 0 and three times the bin's slope; the generated
+   derivative formulas always do (boundary knots: sigmoid * 3 * slope; inner knots: Steffen's limiter <= 2 * the smaller slope) ---- *)
+From NF Require Import Proofs.SplineCubicP.
+Theorem C09_cubic_bin : forall xl w yl h dl dr : R, 0 < w -> 0 < h ->
+  (cfwd xl w yl h dl dr xl = yl /\ cfwd xl w yl h dl dr (xl + w) = yl + h) /\
+  (cder xl w h dl dr xl = dl /\ cder xl w h dl dr (xl + w) = dr) /\
+  (0 < dl < 3 * (h / w) -> 0 < dr < 3 * (h / w) ->
+   (forall x, xl <= x <= xl + w -> 0 < cder xl w h dl dr x) /\
+   (forall p q, xl <= p -> p < q -> q <= xl + w -> cfwd xl w yl h dl dr p < cfwd xl w yl h dl dr q)).
+Proof.
+  intros xl w yl h dl dr Hw Hh. split; [apply cubic_end_points; assumption|]. split; [apply cubic_end_derivatives; assumption|].
+  intros Hl Hr. split; [intros x Hx; apply cubic_derivative_positive; assumption | intros p q; apply cubic_increasing; assumption].
+Qed.
+Print Assumptions C09_cubic_bin.
+
+Theorem C09_cubic_derivatives_are_admissible :
+  (forall u sl, 0 < sl -> 0 < cub_derivative_left Rops u sl < 3 * sl /\ 0 < cub_derivative_right Rops u sl < 3 * sl) /\
+  (forall s1 s2 w1 w2, 0 < s1 -> 0 < s2 -> 0 < w1 -> 0 < w2 ->
+     let d := cub_inner_derivative Rops (cub_min_something Rops (cub_min_something_1 Rops s1 s2 w1 w2) (cub_min_something_2 Rops s1 s2 w1 w2)) s1 s2 w1 w2 in
+     0 < d /\ d <= 2 * s1 /\ d <= 2 * s2).
+Proof. split; [exact boundary_derivative_in_range | exact inner_derivative_in_range]. Qed.
+Print Assumptions C09_cubic_derivatives_are_admissible.
